@@ -56,9 +56,83 @@ func (o Op) String() string { return fmt.Sprintf("%s(%d)%s", o.Kind, o.N, o.Tag)
 // for stored blocks, and on a rollback the filter store is rolled back before
 // the block store (blockManager.rollBackToHeight).
 func GenScript(seed int64, nOps int) []Op {
-	r := rand.New(rand.NewSource(seed))
-	var ops []Op
+	return genScript(rand.New(rand.NewSource(seed)), nOps, nil)
+}
+
+// Script kinds (see ScriptFor).
+const (
+	ScriptSeeded = 0 // GenScript(seed, nOps)
+	ScriptFixed  = 1 // FixedScripts[seed - FixedScriptSeed0], whatever the run's seed
+	ScriptLong   = 2 // a chain longer than one filter checkpoint interval first, then as GenScript
+)
+
+// FixedScriptSeed0 is the script seed of FixedScripts[0] (it only drives the
+// contents of the generated headers).
+const FixedScriptSeed0 = int64(9_000_000_000_001)
+
+// FixedScripts are run by every run, whatever its seed. Every crash point of
+// them is taken like those of the seeded scripts.
+//
+//	0: block headers 1..5 written, then filter headers 1..3, then 4..5, one more
+//	   block, its filter header: the crash points inside and between these
+//	   leave block tip 5 with filter tip 0, 3, 5 and block tip 6 with filter
+//	   tip 5: "block header batch written, its cfheaders batch not (yet /
+//	   completely)". On restart with no new block the filter tip must reach
+//	   the block tip.
+//	1: the same on a chain longer than one filter checkpoint interval: block
+//	   tip 1203 with filter tip 0 (checkpointed fetch, then the rest), 300
+//	   (checkpointed fetch starting inside the stored part), 1100 and 1160
+//	   (nothing left for the checkpointed fetch), then 1207 with 1160.
+var FixedScripts = [][]Op{
+	{{"appB", 5, ""}, {"appF", 3, "cfbatch"}, {"appF", 2, "cfbatch"}, {"appB", 1, ""}, {"appF", 1, "cfbatch"}},
+	{{"appB", 1203, ""}, {"appF", 300, "cfbatch"}, {"appF", 800, "cfbatch"}, {"appF", 60, "cfbatch"}, {"appB", 4, ""}, {"appF", 47, "cfbatch"}},
+}
+
+// ScriptFor returns the script of (kind, seed, nOps): a pure function of its
+// arguments, the same in the enumerating parent and in a SIGKILL child.
+func ScriptFor(kind int, seed int64, nOps int) []Op {
+	switch kind {
+	case ScriptFixed:
+		return append([]Op(nil), FixedScripts[int(seed-FixedScriptSeed0)]...)
+	case ScriptLong:
+		// Block tip 1000..2600 first, the filter store brought to a drawn
+		// height below it in one or two batches, then a seeded script.
+		r := rand.New(rand.NewSource(seed))
+		n := 1000 + r.Intn(1601)
+		pre := []Op{{"appB", n, ""}}
+		switch r.Intn(3) {
+		case 0: // within the last checkpoint interval
+			k := n/1000*1000 + r.Intn(n%1000+1)
+			if a := r.Intn(k + 1); a > 0 && a < k {
+				pre = append(pre, Op{"appF", a, "cfbatch"}, Op{"appF", k - a, "cfbatch"})
+			} else if k > 0 {
+				pre = append(pre, Op{"appF", k, "cfbatch"})
+			}
+		case 1: // anywhere
+			if k := r.Intn(n + 1); k > 0 {
+				pre = append(pre, Op{"appF", k, "cfbatch"})
+			}
+		default: // on a checkpoint
+			pre = append(pre, Op{"appF", (1 + r.Intn(n/1000)) * 1000, "cfbatch"})
+		}
+		return genScript(r, nOps, pre)
+	default:
+		return GenScript(seed, nOps)
+	}
+}
+
+func genScript(r *rand.Rand, nOps int, pre []Op) []Op {
+	ops := append([]Op(nil), pre...)
 	bt, ft := 0, 0
+	for _, op := range pre {
+		switch op.Kind {
+		case "appB":
+			bt += op.N
+		case "appF":
+			ft += op.N
+		}
+	}
+	nOps += len(pre)
 	for len(ops) < nOps {
 		switch k := r.Intn(10); {
 		case k < 3:
@@ -356,8 +430,12 @@ func (r *Runner) Exec(i int, op Op) (before, after *Model, err error) {
 		next := m.clone()
 		batch := make([]headerfs.FilterHeader, 0, op.N)
 		for k := 0; k < op.N; k++ {
+			// The filter header of the block at this height, chained onto the
+			// previous one (the ground truth a scripted peer can serve, see
+			// resume.go). The draw keeps the script's random stream as it was.
 			var fh chainhash.Hash
 			r.Rng.Read(fh[:])
+			fh = NextFilterHeader(next.Filters[len(next.Filters)-1], next.Blocks[len(next.Filters)].BlockHash())
 			batch = append(batch, headerfs.FilterHeader{FilterHash: fh})
 			next.Filters = append(next.Filters, fh)
 		}
@@ -506,7 +584,24 @@ func (c *ImageCheck) Run() (out []Finding, inconclusive string) {
 			return []Finding{{sig("reopen-fails"), fmt.Sprintf("stores do not open after a %s: %v", ctx, err)}}, ""
 		}
 	}
-	defer func() { CloseAll(db, b, f) }()
+	// stopBM, once set, stops the block manager started by the filter-sync
+	// resume step. Stopping takes the client up to 50 ms of sleeping (its stop
+	// ticker wakes the parked handler), so that and the closing of the stores
+	// happen in the background; the parked handler touches nothing until woken,
+	// and exits when woken.
+	var stopBM func()
+	defer func() {
+		if stopBM == nil {
+			CloseAll(db, b, f)
+			return
+		}
+		pendingClose.Add(1)
+		go func() {
+			defer pendingClose.Done()
+			stopBM()
+			CloseAll(db, b, f)
+		}()
+	}()
 	// Block store: equal to the state before or after the primitive.
 	readB := func() ([]wire.BlockHeader, error) {
 		_, tip, err := b.ChainTip()
@@ -656,6 +751,20 @@ func (c *ImageCheck) Run() (out []Finding, inconclusive string) {
 			return fs, inc
 		}
 		gotB, gotF = m.Blocks, m.Filters
+	}
+	// Syncing resumes (0): the real block manager is STARTED on these stores
+	// with one honest peer that announces no block; the filter-header chain
+	// must catch up with the block-header chain (see resume.go).
+	if c.BM != nil {
+		newF, stop, rule, what := ResumeFilterSync(p, b, f, gotB, gotF, c.Stats)
+		stopBM = stop
+		switch {
+		case rule == bmInconclusive:
+			return nil, what
+		case rule != "":
+			return []Finding{{sig(rule), fmt.Sprintf("%s: %s", ctx, what)}}, ""
+		}
+		gotF = newF
 	}
 	// Syncing resumes (1): the real block manager starts on these stores and
 	// commits one valid next header.
